@@ -50,3 +50,24 @@ def run(tier):
 
 def replay(path):
     return kernel.replay_kernel(PID, path)
+
+
+def run_both(pid, tier, first, second):
+    """Run two stages that each write evidence/<pid>.json and merge the two evidence files."""
+    import json, os, time
+    t0 = time.time()
+    rc1 = first()
+    evp = os.path.join(K.VERIF, "evidence", pid + ".json")
+    ev1 = json.load(open(evp))
+    rc2 = second()
+    ev2 = json.load(open(evp))
+    cov = ev1["coverage"]
+    cov["second_stage"] = ev2["coverage"]
+    for k in ("states", "transitions", "obligations", "discharged"):
+        cov[k] = cov.get(k, 0) + ev2["coverage"].get(k, 0)
+    cov["samples"] = cov.get("samples", [])[:40] + ev2["coverage"].get("samples", [])[:25]
+    K.write_evidence(pid, tier, "model_checking", cov, ev1["assumptions"] + [a for a in ev2["assumptions"] if a not in ev1["assumptions"]], time.time() - t0,
+                     violations=ev1.get("violations", 0) + ev2.get("violations", 0))
+    if 1 in (rc1, rc2):
+        return 1
+    return max(rc1, rc2)
